@@ -112,6 +112,81 @@ func init() {
 			}
 		}
 	})
+	// udpwire flood <n> <k>: n well-formed datagrams back to back while NOBODY takes the decoded messages from the handler
+	// (a message loop that is busy): the parse loop blocks, the queue between the receive loop and the parse loop fills,
+	// the kernel drops what does not fit. Then the handler is drained. Datagrams may be missing (UDP), but every message
+	// that comes out is one of the datagrams sent, with its own body, at most once, in the order sent.
+	vReg("udpwire flood", func(a []string) string {
+		if vUDPWireH == nil {
+			return "no-transport"
+		}
+		n, _ := strconv.Atoi(a[0])
+		vUDPWireSeq++
+		// drain leftovers
+		for len(vUDPWireH.ch) > 0 {
+			<-vUDPWireH.ch
+		}
+		vUDPWireH.Lock()
+		vUDPWireH.got = nil
+		vUDPWireH.peers = nil
+		vUDPWireH.Unlock()
+		bodyOf := func(i int) []byte {
+			body := make([]byte, 10+37*i%900)
+			for j := range body {
+				body[j] = byte('a' + (i+j)%26)
+			}
+			return body
+		}
+		for i := 0; i < n; i++ {
+			body := bodyOf(i)
+			d := "MESSAGE sip:s SIP/2.0\r\nCall-ID: flood-" + a[1] + "-" + strconv.Itoa(i) + "\r\nContent-Length: " + strconv.Itoa(len(body)) + "\r\n\r\n" + string(body)
+			vUDPWireSock.WriteToUDP([]byte(d), vUDPWireAddr)
+			if i%256 == 255 {
+				time.Sleep(100 * time.Microsecond)
+			}
+		}
+		time.Sleep(50 * time.Millisecond)
+		for {
+			select {
+			case <-vUDPWireH.ch:
+				continue
+			case <-time.After(400 * time.Millisecond):
+			}
+			break
+		}
+		vUDPWireH.Lock()
+		got := append([]*Message(nil), vUDPWireH.got...)
+		vUDPWireH.Unlock()
+		seen := map[int]bool{}
+		prev := -1
+		prefix := "flood-" + a[1] + "-"
+		for _, m := range got {
+			id, _ := m.GetHeaderValue("Call-ID")
+			ids := fmt.Sprintf("%v", id)
+			if !strings.HasPrefix(ids, prefix) {
+				continue
+			}
+			i, err := strconv.Atoi(ids[len(prefix):])
+			if err != nil || i < 0 || i >= n {
+				return "ok n=" + a[0] + " unknown-message-" + hx(ids)
+			}
+			if seen[i] {
+				return "ok n=" + a[0] + " duplicated=" + strconv.Itoa(i)
+			}
+			seen[i] = true
+			if string(m.body) != string(bodyOf(i)) {
+				return "ok n=" + a[0] + " body-of-another-datagram-in=" + strconv.Itoa(i)
+			}
+			if i < prev {
+				return "ok n=" + a[0] + " handed-over-out-of-order"
+			}
+			prev = i
+		}
+		if len(seen) == 0 {
+			return "ok n=" + a[0] + " nothing-delivered"
+		}
+		return "ok n=" + a[0] + " intact-at-most-once-in-order"
+	})
 	// udpwire burst <n> <k>: n well-formed datagrams of different sizes back to back from the first socket, then the
 	// sentinel from the second one: every one of them must come out exactly once (Call-ID burst-<k>-<i>)
 	vReg("udpwire burst", func(a []string) string {
